@@ -35,6 +35,23 @@ type rec struct {
 	InWindow bool   `json:"in_window"`
 	SvcNT    int32  `json:"svc_nt,omitempty"`
 	Alt      bool   `json:"alt,omitempty"`
+	// InWindowRet: the client time still passes the skew test of the settings used when the call returns
+	InWindowRet bool   `json:"in_window_at_return"`
+	ZoneMin     int    `json:"zone_min,omitempty"`
+	Relabel     string `json:"relabel,omitempty"`
+	CtUs        int64  `json:"ct_us"`
+}
+
+// clientOf splits a client of the tape into realm and name components.
+func clientOf(s string) (string, []string) {
+	realm := "SIM.TEST"
+	if i := strings.Index(s, "@"); i >= 0 {
+		realm, s = s[i+1:], s[:i]
+	}
+	if strings.Contains(s, "%") {
+		return realm, []string{strings.ReplaceAll(s, "%", "/")}
+	}
+	return realm, strings.Split(s, "/")
 }
 
 func pname(s string) types.PrincipalName {
@@ -81,7 +98,7 @@ func run(tapeJSON json.RawMessage, res *core.Result) {
 	skew := time.Duration(tp.SkewS) * time.Second
 	// the world starts one hour into the bubble; client times are relative to that instant
 	simrt.SleepExact(int64(time.Hour))
-	base := time.Now().UTC()
+	base := time.Now().UTC().Truncate(time.Microsecond)
 	var w *verifyWorld
 	if tp.Path == "verify" {
 		var err error
@@ -93,11 +110,8 @@ func run(tapeJSON json.RawMessage, res *core.Result) {
 	}
 	rc := service.GetReplayCache(skew) // created by task 0; its clean-up goroutine becomes a task on first lock
 	altSkew := time.Duration(tp.AltMs) * time.Millisecond
-	rcAlt := rc
-	if tp.AltMs != 0 {
-		// what a second settings object of the process gets from the library
-		rcAlt = service.GetReplayCache(altSkew)
-	}
+	// a second settings object of the process becomes known to the cache when it first verifies
+	// (service.VerifyAPREQ asks for the cache with its own skew on every call)
 	recs := make([][]rec, len(tp.Tasks))
 	var ts []*simrt.Task
 	for ti, tt := range tp.Tasks {
@@ -111,19 +125,23 @@ func run(tapeJSON json.RawMessage, res *core.Result) {
 				case "present":
 					ct := base.Add(time.Duration(op.CtUs) * time.Microsecond)
 					r := rec{Task: tt.ID, Idx: oi, ID: fmt.Sprintf("%s|%d|%s", op.Client, op.CtUs, op.Svc), Key: fmt.Sprintf("%s|%d", op.Client, op.CtUs)}
+					r.CtUs = op.CtUs
 					r.Invoke = simrt.NowNs()
 					now := time.Now().UTC()
 					dlt := now.Sub(ct)
 					if dlt < 0 {
 						dlt = -dlt
 					}
-					useSkew, useRC := skew, rc
+					useSkew := skew
 					if op.Alt && tp.AltMs != 0 && (tp.AltKt == "" || tp.AltKt == op.Svc || w == nil) {
 						// (settings that override the keytab principal verify tickets of that service only)
-						useSkew, useRC = altSkew, rcAlt
+						useSkew = altSkew
 						r.Alt = true
 					}
-					r.SvcNT = op.SvcNT
+					r.SvcNT, r.ZoneMin = op.SvcNT, op.ZoneMin
+					if w != nil && RelabelApplies(&tp, op, r.Alt) {
+						r.Relabel = op.Relabel
+					}
 					r.InWindow = dlt <= useSkew
 					simrt.Logf("invoke present %s in_window=%v", r.ID, r.InWindow)
 					if w != nil {
@@ -132,15 +150,25 @@ func run(tapeJSON json.RawMessage, res *core.Result) {
 						r.Out = "skew" // gated as VerifyAPREQ does before consulting the cache
 					} else {
 						sec := ct.Truncate(time.Second)
-						a := types.Authenticator{AVNO: 5, CRealm: "SIM.TEST", CName: pname(op.Client),
+						crealm, cnames := clientOf(op.Client)
+						if op.ZoneMin != 0 {
+							// what the decoder makes of a time written with a zone offset
+							sec = sec.In(time.FixedZone("", op.ZoneMin*60))
+						}
+						a := types.Authenticator{AVNO: 5, CRealm: crealm, CName: types.PrincipalName{NameType: 1, NameString: cnames},
 							CTime: sec, Cusec: int(ct.Sub(sec) / time.Microsecond)}
-						if useRC.IsReplay(pnameT("HTTP/"+op.Svc, op.SvcNT), a) {
+						if service.GetReplayCache(useSkew).IsReplay(pnameT("HTTP/"+op.Svc, op.SvcNT), a) {
 							r.Out = "replay"
 						} else {
 							r.Out = "fresh"
 						}
 					}
 					r.Return = simrt.NowNs()
+					dlt = time.Now().UTC().Sub(ct)
+					if dlt < 0 {
+						dlt = -dlt
+					}
+					r.InWindowRet = dlt <= useSkew
 					simrt.Logf("return present %s -> %s", r.ID, r.Out)
 					recs[ti] = append(recs[ti], r)
 				case "clear":
@@ -212,6 +240,9 @@ func judge(tp *Tape, base time.Time, skew time.Duration, all []rec, res *core.Re
 			continue
 		}
 		res.Evals++
+		if !r.InWindowRet {
+			res.Probes["window-closes-during-presentation"]++
+		}
 		byID[r.ID] = append(byID[r.ID], r)
 	}
 	if res.Evals == 0 {
@@ -248,6 +279,15 @@ func judge(tp *Tape, base time.Time, skew time.Duration, all []rec, res *core.Re
 			}
 			if rs[i].Alt != rs[0].Alt {
 				res.Probes["replay-through-other-settings"]++
+			}
+			if rs[i].ZoneMin != rs[0].ZoneMin {
+				res.Probes["replay-under-other-zone-encoding"]++
+			}
+			if rs[i].Relabel != rs[0].Relabel {
+				res.Probes["replay-with-rewritten-sname"]++
+			}
+			if rs[i].Alt && !rs[0].Alt && tp.AltMs*1_000_000 > skewNs && rs[i].Invoke-(int64(time.Hour)+rs[i].CtUs*1000) > skewNs {
+				res.Probes["longer-skew-first-used-after-shorter-skew-elapsed"]++
 			}
 		}
 		var acc []rec
@@ -289,7 +329,7 @@ func judge(tp *Tape, base time.Time, skew time.Duration, all []rec, res *core.Re
 		}
 	}
 	for _, r := range all {
-		if r.Out == "replay" && r.InWindow {
+		if r.Out == "replay" && r.InWindow && !unjudgedReplay(tp, r, all, skewNs) {
 			// someone else must have presented the same (client, time) and been invoked before r returned
 			ok := false
 			for _, o := range all {
@@ -298,7 +338,17 @@ func judge(tp *Tape, base time.Time, skew time.Duration, all []rec, res *core.Re
 				}
 			}
 			if !ok {
-				engine.Violate(res, "false-replay", r)
+				sig := "false-replay"
+				for _, o := range all {
+					if o.Key != r.Key && o.CtUs == r.CtUs && o.Invoke < r.Return && (o.Out == "fresh" || o.Out == "replay") {
+						or, on := clientOf(strings.SplitN(o.Key, "|", 2)[0])
+						rr, rn := clientOf(strings.SplitN(r.Key, "|", 2)[0])
+						if strings.Join(on, "/") == strings.Join(rn, "/") && (or != rr || len(on) != len(rn)) {
+							sig = "false-replay/other-realm-or-other-components-same-joined-name"
+						}
+					}
+				}
+				engine.Violate(res, sig, r)
 			}
 		}
 	}
@@ -306,6 +356,9 @@ func judge(tp *Tape, base time.Time, skew time.Duration, all []rec, res *core.Re
 	var ops []porcupine.Operation
 	for _, r := range all {
 		if (r.Out == "fresh" || r.Out == "replay") && r.InWindow {
+			if r.Out == "replay" && unjudgedReplay(tp, r, all, skewNs) {
+				continue
+			}
 			ret := r.Return
 			if ret <= r.Invoke {
 				ret = r.Invoke + 1
@@ -347,6 +400,32 @@ func judge(tp *Tape, base time.Time, skew time.Duration, all []rec, res *core.Re
 	res.Stats["presentations"] = int64(len(outcome))
 }
 
+// unjudgedReplay: a refusal as "replay" that says nothing about the cache's memory.  (a) The skew
+// window of the client time closed while the call was in progress: the request passed the skew test
+// at its start and would no longer pass it when answered - refusing it either way is right.  (b) It
+// came through the settings with the longer skew, carries a client time older than the shorter skew,
+// and arrived within one longer-skew period of those settings' first use: until then the process kept
+// entries for the shorter skew only, so a cache that cannot know whether it has seen the
+// authenticator may refuse it.  Acceptances are always judged.
+func unjudgedReplay(tp *Tape, r rec, all []rec, skewNs int64) bool {
+	if !r.InWindowRet {
+		return true
+	}
+	altNs := tp.AltMs * 1_000_000
+	if !r.Alt || altNs <= skewNs {
+		return false
+	}
+	first := int64(-1)
+	for _, o := range all {
+		if o.Alt && (o.Out == "fresh" || o.Out == "replay") && (first < 0 || o.Invoke < first) {
+			first = o.Invoke
+		}
+	}
+	// client time on the run clock: the world starts one hour into the bubble
+	ctNs := int64(time.Hour) + r.CtUs*1000
+	return first >= 0 && r.Invoke <= first+altNs && first-ctNs > skewNs
+}
+
 // classifyDouble names the history shape of a double acceptance (DESIGN 5.4).
 func classifyDouble(acc, all []rec, skewNs, creation int64) string {
 	a, b := acc[0], acc[1]
@@ -354,6 +433,17 @@ func classifyDouble(acc, all []rec, skewNs, creation int64) string {
 		a, b = b, a
 	}
 	overlap := a.Invoke < b.Return && b.Invoke < a.Return
+	// causes that lie in how the authenticator was presented rather than in the history around it
+	switch {
+	case a.ZoneMin != 0 || b.ZoneMin != 0:
+		return "double-accept/client-time-encoded-with-zone-offset"
+	case a.Relabel != b.Relabel:
+		return "double-accept/rewritten-ticket-sname"
+	case b.Alt && !a.Alt && b.Invoke-(int64(time.Hour)+b.CtUs*1000) > skewNs:
+		return "double-accept/longer-skew-of-second-settings-first-used-late"
+	case !b.InWindowRet && !overlap:
+		return "double-accept/window-closes-during-second-presentation"
+	}
 	live := func(o rec) bool { return (o.Out == "fresh" || o.Out == "replay") && o.InWindow }
 	for _, o := range all {
 		if o.Key == a.Key && o.ID != a.ID && live(o) && o.Return > a.Invoke && o.Invoke < b.Return {
